@@ -115,8 +115,9 @@ def job(j):
             rc, out = run(argv, timeout=120)
             if rc not in (0, 1):
                 continue        # the tool refused / failed: nothing to check for this transition
-            if 'tune2fs' in argv[0] and 'Please run e2fsck' in out:
+            if 'tune2fs' in argv[0] and 'Please run e2fsck' in out and 'NOFSCK' not in label:
                 run([E2FSCK, '-fyD', p], timeout=120)
+            if label.startswith('SETUP'): continue          # a preparation step (e.g. leaving a transaction in the journal): nothing is checked in this state
         data = open(p, 'rb').read()
         b, im = check_backups(data, label)
         bad += b; n += 1
@@ -156,6 +157,17 @@ def main(tier, only=None):
                              ('tune2fs -U', [T, '-f', '-U', '11111111-2222-3333-4444-555555555555', '{img}']),
                              ('resize2fs to 28 groups', [R, '-f', '{img}', str(28 * g + 1)]), ('e2fsck -fyD', [E2FSCK, '-fyD', '{img}'])]
                 jobs.append(('%s/bs%d/g%d' % (name, bs, groups), ['-b', str(bs), '-g', str(g), '-N', str(16 * groups)] + args, size, steps))
+    # tune2fs on a filesystem whose journal still has to be replayed (tune2fs replays it first, through the library's journal code, which reopens the filesystem)
+    DBG = tool('debugfs')
+    pay = os.path.join(scratch(), 'c20.payload'); open(pay, 'wb').write(b'\x5a' * 4096)
+    js = os.path.join(scratch(), 'c20.jscript'); open(js, 'w').write('jo\njw -b 333 %s\njc\n' % pay)
+    for name, args in (('journal', ['-t', 'ext4', '-O', '^resize_inode,^metadata_csum', '-J', 'size=1']), ('journal_csum', ['-t', 'ext4', '-O', '^resize_inode,metadata_csum,64bit', '-J', 'size=1']),
+                       ('journal_ext3', ['-t', 'ext3', '-O', '^resize_inode', '-J', 'size=1'])):
+        for groups in (8, 26) if quick else (6, 8, 10, 26, 28):
+            for tl, targs in (('-U', ['-f', '-U', '11111111-2222-3333-4444-555555555555']), ('-O large_file,^filetype', ['-O', 'large_file,^filetype']), ('-L -O ^dir_nlink', ['-L', 'lbl', '-O', '^dir_nlink'])):
+                steps = [('SETUP debugfs jo/jw/jc: a committed transaction waits in the journal', [DBG, '-w', '-f', js, '{img}']),
+                         ('NOFSCK tune2fs %s on a filesystem that needs recovery' % tl, [T] + targs + ['{img}'])]
+                jobs.append(('%s/bs1024/g%d/needs_recovery/tune2fs %s' % (name, groups, tl), ['-b', '1024', '-g', '256', '-N', str(16 * groups)] + args, groups * 256 + 1, steps))
     # default group size: plain e2fsck (no -b) must find a backup by itself
     for name, args, size in (('default_1k', ['-b', '1024', '-t', 'ext4', '-O', '^has_journal', '-N', '64'], 3 * 8192 + 1), ('default_4k', ['-b', '4096', '-t', 'ext4', '-O', '^has_journal,metadata_csum', '-N', '64'], 2 * 32768 + 100),
                              ('default_2k_ext2', ['-b', '2048', '-t', 'ext2', '-N', '64'], 2 * 16384 + 50)):
@@ -171,7 +183,7 @@ def main(tier, only=None):
     ck.add(evaluations=runs, distinct_nontrivial=ok, states=len(jobs), transitions=runs, traces_validated_against_impl=runs,
            rule='group count (quick: 1..12, 17, 18, 24..28, 33, 34, 49, 50; thorough 1..50) x layout {sparse_super, none, sparse_super2 with 2/1/0 backups, meta_bg (32-bit, 64-bit, with sparse_super2), no flex_bg, 64bit+csum, resize_inode} x block size; '
                 'after mke2fs and after each of resize2fs (shrink and grow inside the last group, i.e. same group count; +2 groups; to 28 groups)/tune2fs/e2fsck -D transitions: (1) set of groups carrying a superblock copy == set computed from the format rule, copies current (geometry, features, checksum); '
-                '(2) for every such location: primary superblock and descriptors zeroed, e2fsck -fy -b loc -B bs must exit <=1, then e2fsck -fn = 0, xck.tree equals the original and every group keeps its bitmap/inode-table locations',
+                'plus journaled layouts with a committed transaction left in the journal x tune2fs {-U, feature changes} (tune2fs replays the journal first); (2) for every such location: primary superblock and descriptors zeroed, e2fsck -fy -b loc -B bs must exit <=1, then e2fsck -fn = 0, xck.tree equals the original and every group keeps its bitmap/inode-table locations',
            samples=[jobs[0][0], jobs[len(jobs) // 2][0], jobs[-1][0]])
     ck.cov['skipped'] = skip
     ck.assumptions += ['lost+found differences after recovery are ignored']
